@@ -729,6 +729,17 @@ func (c *VC) callIsHeapPure(call *ast.CallExpr) bool {
 		if fi.Contract != nil && !c.shouldInline(fi) {
 			return !contractModifies(fi.Contract)
 		}
+		if c.shouldInline(fi) && fi.Decl != nil && fi.Decl.Body != nil {
+			if v, ok := c.heapPureMemo[fi]; ok {
+				return v
+			}
+			c.heapPureMemo[fi] = true // recursion guard
+			c.pushFrame(fi)
+			ef := c.effectsOf(fi.Decl.Body)
+			c.popFrame()
+			c.heapPureMemo[fi] = !ef.heaps
+			return !ef.heaps
+		}
 	}
 	return c.isPureName(fn)
 }
@@ -854,6 +865,10 @@ func (c *VC) loopCut(st *State, tg *target, ld *LoopDir, ord int, ef loopEffects
 			continue
 		}
 		c.addFact(tTrue, c.wfAt(st, st.env[o], o.Type()))
+	}
+	if c.afterHavoc != nil {
+		c.afterHavoc(st)
+		c.afterHavoc = nil
 	}
 	// assume invariants
 	for _, inv := range invs {
@@ -1074,6 +1089,9 @@ func (c *VC) execRange(st *State, s *ast.RangeStmt, label string) {
 		}
 	}
 	// implicit invariant 0 <= idx <= n is added to user invariants
+	if idxObj != nil {
+		c.afterHavoc = func(h *State) { h.env[idxObj] = h.env[hidden] }
+	}
 	c.loopCutWithImplicit(st, tg, ld, ord, ef, pos, s.Pos(),
 		func(b *State) *Term {
 			i := b.env[hidden]
@@ -1161,6 +1179,9 @@ func (c *VC) execRangeString(st *State, s *ast.RangeStmt, tg *target, ld *LoopDi
 	}
 	c.assumptions["range over string: utf8 decoding abstracted (width 1..4 within the string; ASCII bytes decode to themselves with width 1)"] = true
 	var width *Term
+	if idxObj != nil {
+		c.afterHavoc = func(h *State) { h.env[idxObj] = h.env[hidden] }
+	}
 	c.loopCutWithImplicit(st, tg, ld, ord, ef, c.dirPkgPos(s.Body), s.Pos(),
 		func(b *State) *Term {
 			i := b.env[hidden]
